@@ -70,7 +70,7 @@ func runC05(res *hx.Result, rng *hx.Rng, tier string, outdir string) {
 		os.Exit(1)
 	}
 	// the hostile stream walks through every identifier class in turn
-	nPlain, nHostile := 14, len(c05.HostileClasses)
+	nPlain, nHostile := 20, len(c05.HostileClasses)
 	if tier == "thorough" {
 		nPlain, nHostile = 210, 6*len(c05.HostileClasses)
 	}
